@@ -64,6 +64,20 @@ fn check_term(t: &M, inserts: &[M]) {
                             &got.as_ref().map_or("None".to_owned(), M::show),
                         ),
                     }
+                    // the unsigned entry point (used by `open` and by every context lookup) agrees
+                    if amount >= 0 {
+                        count!("calls");
+                        match guard(|| crate::de_bruijn::unsigned_shift(&rt, cutoff, amount as usize)) {
+                            Err(m) => violation("shift-panic", &format!("unsigned_shift({}, cutoff {cutoff}, amount {amount})", t.show()), "a term", &m),
+                            Ok(u) => {
+                                if want.as_ref().is_some_and(|w| w.alpha_eq(&mirror(&u))) {
+                                    count!("unsigned_shift_ok");
+                                } else {
+                                    violation("shift", &format!("unsigned_shift({}, cutoff {cutoff}, amount {amount})", t.show()), &want.as_ref().map_or("-".to_owned(), M::show), &mirror(&u).show());
+                                }
+                            }
+                        }
+                    }
                     // a downward shift undoes an upward one; shifts compose additively
                     if amount > 0
                         && let Some(g) = &got
@@ -165,6 +179,58 @@ fn sweep(name: &str, atoms: Vec<M>, formers: Vec<Former>, max_size: usize, inser
     )
 }
 
+// Opening with every inserted term: the main sweep pairs every host term with a selection of at most 40
+// inserted terms; here every term of at most `insert_size` nodes that has a free variable is inserted
+// into every host term of at most `host_size` nodes (every index, every insertion shift), so that no
+// shape of inserted term (a binder whose annotation mentions a free variable, a group, ...) is left out.
+fn insert_sweep(atoms: Vec<M>, formers: Vec<Former>, host_size: usize, insert_size: usize) -> Sweep {
+    let mut hosts_space = TermSpace::new(atoms.clone(), formers.clone());
+    let n_hosts = hosts_space.total_upto(host_size);
+    let hosts: Rc<Vec<M>> = Rc::new((0..n_hosts).map(|i| hosts_space.unrank_global(host_size, i)).collect());
+    let space = Rc::new(RefCell::new(TermSpace::new(atoms, formers)));
+    let total = space.borrow_mut().total_upto(insert_size);
+    let s2 = space.clone();
+    Sweep::new(
+        &format!("every inserted term of at most {insert_size} nodes into every host of at most {host_size} nodes"),
+        total,
+        move |idx| {
+            let u = space.borrow_mut().unrank_global(insert_size, idx);
+            let mut fv = std::collections::BTreeSet::new();
+            crate::model::mterm::free_vars(&u, 0, &mut fv);
+            if fv.is_empty() {
+                return;
+            }
+            count!("evaluations");
+            count!("inserted_terms");
+            let ru = real(&u);
+            for t in hosts.iter() {
+                let rt = real(t);
+                for index in 0..3usize {
+                    for s in 0..=index {
+                        count!("calls");
+                        let want = subst::expected_open(t, index, &u, s, WIDTH);
+                        let got = guard(|| crate::de_bruijn::open(&rt, index, &ru, s));
+                        let input = || format!("open({}, index {index}, insert {}, shift {s})", t.show(), u.show());
+                        match (want, got) {
+                            (_, Err(m)) => violation("open-panic", &input(), "a term", &m),
+                            (None, _) => crate::infra::machinery(&format!("reference substitution undefined for {}", input())),
+                            (Some(w), Ok(g)) => {
+                                if w.alpha_eq(&mirror(&g)) {
+                                    count!("open_ok");
+                                } else {
+                                    violation("open", &input(), &w.show(), &mirror(&g).show());
+                                }
+                            }
+                        }
+                    }
+                }
+            }
+            count!("nontrivial");
+        },
+        move |idx| s2.borrow_mut().unrank_global(insert_size, idx).show(),
+    )
+}
+
 fn reduced_formers() -> Vec<Former> {
     vec![Former::Lam(false), Former::Pi(false), Former::App, Former::Bin(Op::Add), Former::If, Former::Let(1), Former::Let(2)]
 }
@@ -183,12 +249,13 @@ impl Prop for C11 {
         vec![
             sweep("all formers (groups of 1-3 definitions), indices < 4", all_atoms(4), all_formers(3), tier.pick(5, 6), 2),
             sweep("reduced formers (lambda, pi, application, sum, if, groups of 1-2), indices < 4", reduced_atoms(), reduced_formers(), tier.pick(7, 8), 2),
+            insert_sweep(all_atoms(3), all_formers(2), 3, tier.pick(3, 4)),
         ]
     }
     fn evidence(&self, tier: Tier) -> EvidenceSpec {
         EvidenceSpec {
             level: "exploration",
-            rule: "every hole-free de Bruijn term with at most n nodes over every term former (groups of 1-3 definitions) and variable indices < 4 (and, one size further, over a reduced set of formers); for each: free_variables at cutoffs 0-2; signed_shift at cutoffs 0-3 and amounts -3..3 (56 calls incl. the algebraic laws: zero is identity, a downward shift undoes an upward one, shifts compose additively); open at indices 0-3 with up to 40 inserted terms and every insertion shift 0..index; each result compared with the named reference semantics (a shift is insertion/removal of names in the context, opening is substitution for a name). evaluations = terms; all are non-trivial (each drives >= 100 calls)".to_owned(),
+            rule: "every hole-free de Bruijn term with at most n nodes over every term former (groups of 1-3 definitions) and variable indices < 4 (and, one size further, over a reduced set of formers); for each: free_variables at cutoffs 0-2; signed_shift at cutoffs 0-3 and amounts -3..3, and unsigned_shift for the non-negative amounts (72 calls incl. the algebraic laws: zero is identity, a downward shift undoes an upward one, shifts compose additively); open at indices 0-3 with up to 40 inserted terms and every insertion shift 0..index; in addition every term of at most 3/4 nodes that has a free variable is inserted into every host term of at most 3 nodes (every index below 3, every insertion shift); each result compared with the named reference semantics (a shift is insertion/removal of names in the context, opening is substitution for a name). evaluations = terms; all are non-trivial (each drives >= 100 calls)".to_owned(),
             assumptions: vec!["hole-free terms only, as the property states".to_owned()],
             evaluations: "evaluations",
             nontrivial: "nontrivial",
